@@ -4,6 +4,7 @@ import multiprocessing as mp
 
 from collections.abc import Iterator
 from queue import Empty
+from types import SimpleNamespace
 from typing import Iterable, Mapping, Callable, Union, Any
 
 from coba.primitives import Filter, Line
@@ -204,22 +205,21 @@ class Multiprocessor(Filter[Iterable[Any], Iterable[Any]]):
             get_max   = Slice(None,self._maxtasksperchild)
             setter    = EventSetter(event)
 
-            self._n_procs      = self._max_processes
-            self._exceptions   = []
-            self._poison       = None
-            self._main_err     = False
-            self._load_stopper = Stopper() #this works because the loader is a thread which means we have shared memory
-            n_procs_lock       = mt.Lock() #filter_finished_or_failed runs on one thread per process
+            #the state of a call is local to the call: callbacks of an earlier call on this object that was
+            #abandoned (its workers may still be finishing an item) must not change the counts of this call
+            state        = SimpleNamespace(n_procs=self._max_processes, exceptions=[], poison=None, main_err=False)
+            load_stopper = Stopper() #this works because the loader is a thread which means we have shared memory
+            n_procs_lock = mt.Lock() #filter_finished_or_failed runs on one thread per process
 
-            load_line   = SourceSink(IterableSource(items), self._load_stopper, pickler, in_put)
+            load_line   = SourceSink(IterableSource(items), load_stopper, pickler, in_put)
             filter_line = SourceSink(in_get, setter, unpickler, get_max, Safe(Foreach(self._filter)), out_put)
 
             def loader_finished_or_failed(worker: Union[ThreadLine,ProcessLine]):
-                if worker.exception: self._exceptions.append(worker.exception)
-                in_put.write(self._load_stopper.filter([self._poison]*self._n_procs))
+                if worker.exception: state.exceptions.append(worker.exception)
+                in_put.write(load_stopper.filter([state.poison]*state.n_procs))
 
             def filter_finished_or_failed(worker: Union[ThreadLine,ProcessLine]):
-                if worker.exception: self._exceptions.append(worker.exception)
+                if worker.exception: state.exceptions.append(worker.exception)
 
                 assert not worker.is_alive()
 
@@ -228,25 +228,25 @@ class Multiprocessor(Filter[Iterable[Any], Iterable[Any]]):
                     #exitcode -15 is keyboard interrupt...
                     if worker.exitcode != -15:
                         print(f"Background process {worker.pid} failed unexpectedly with exit code {worker.exitcode}.")
-                    self._main_err = True
+                    state.main_err = True
                     event.set()
 
                 #we have to stop on exception since, depending on where the exception occurred,
                 #we may not have actually read anything from the input queue. If we didn't then
                 #the input queue will never empty and we'll be stuck starting processes forever.
-                if not worker.poisoned and not self._exceptions and worker.exitcode == 0:
+                if not worker.poisoned and not state.exceptions and worker.exitcode == 0:
                     MyProcessLine(worker.pipeline,filter_finished_or_failed,read_waiters).start()
                 else:
                     with n_procs_lock:
-                        self._n_procs -= 1
-                        if self._n_procs == 0:
+                        state.n_procs -= 1
+                        if state.n_procs == 0:
                             try:
                                 out_put.write([out_poison])
                             except ValueError: #pragma: no cover
                                 pass
 
             load_thread = ThreadLine(load_line,loader_finished_or_failed)
-            filt_procs  = [MyProcessLine(filter_line,filter_finished_or_failed,read_waiters) for _ in range(self._n_procs)]
+            filt_procs  = [MyProcessLine(filter_line,filter_finished_or_failed,read_waiters) for _ in range(state.n_procs)]
 
             try:
                 load_thread.start()
@@ -255,7 +255,7 @@ class Multiprocessor(Filter[Iterable[Any], Iterable[Any]]):
                 #by waiting we can avoid throwing multiple exceptions
                 #when there is a problem with starting a new process
                 event.wait()
-                if not self._main_err:
+                if not state.main_err:
                     for p in filt_procs: p.start()
                     for i in out_get.read():
                         if read_waiters and isinstance(i, UniqueKey):
@@ -266,7 +266,7 @@ class Multiprocessor(Filter[Iterable[Any], Iterable[Any]]):
             finally:
 
                 #stop loading into the input queue
-                self._load_stopper.stop()
+                load_stopper.stop()
 
                 #empty the input queue and then close it
                 #if we don't empty first then we can easily
@@ -290,5 +290,5 @@ class Multiprocessor(Filter[Iterable[Any], Iterable[Any]]):
                     #and doesn't seem to help anything
                     #out_queue.close()
 
-            if self._exceptions:
-                raise self._exceptions[0]
+            if state.exceptions:
+                raise state.exceptions[0]
